@@ -26,6 +26,8 @@ type Solver struct {
 	nameCtr int
 	pendingInj []*Term
 	noAxioms bool
+	hist     []string
+	liveTimeout int
 	axiomed map[string]bool
 	Queries int
 	Time    time.Duration
@@ -35,6 +37,7 @@ type Solver struct {
 }
 
 type scopeRec struct {
+	histLen int
 	names  []*Term
 	decls  []string
 	axioms []string
@@ -107,6 +110,7 @@ func (s *Solver) Close() {
 }
 
 func (s *Solver) send(line string) {
+	s.hist = append(s.hist, line)
 	if s.log != nil {
 		fmt.Fprintln(s.log, line)
 	}
@@ -116,6 +120,7 @@ func (s *Solver) send(line string) {
 
 // Reset clears all assertions and declarations (start of a new path).
 func (s *Solver) Reset() {
+	s.hist = nil
 	s.send("(reset)")
 	s.resetState()
 	if strings.Contains(s.bin, "cvc5") {
@@ -129,14 +134,73 @@ func (s *Solver) Reset() {
 }
 
 func (s *Solver) Push() {
+	hl := len(s.hist)
 	s.send("(push 1)")
-	s.scopes = append(s.scopes, scopeRec{})
+	s.scopes = append(s.scopes, scopeRec{histLen: hl})
+}
+
+// Fresh starts a new solver process holding the current assertions without
+// any push/pop history, so that its first check-sat runs non-incrementally
+// (full preprocessing). Used when the incremental core answers unknown.
+func (s *Solver) Fresh(timeoutMs int) *Solver {
+	ns := &Solver{bin: s.bin, timeout: timeoutMs}
+	ns.args = []string{"-in"}
+	if strings.Contains(s.bin, "cvc5") {
+		ns.args = s.args
+	}
+	ns.cmd = exec.Command(ns.bin, ns.args...)
+	var err error
+	ns.in, err = ns.cmd.StdinPipe()
+	if err != nil {
+		panic(err)
+	}
+	o, err := ns.cmd.StdoutPipe()
+	if err != nil {
+		panic(err)
+	}
+	ns.cmd.Stderr = os.Stderr
+	ns.out = bufio.NewReaderSize(o, 1<<20)
+	if err := ns.cmd.Start(); err != nil {
+		panic(err)
+	}
+	ns.names = map[*Term]string{}
+	for k, v := range s.names {
+		ns.names[k] = v
+	}
+	ns.decl = map[string]bool{}
+	for k, v := range s.decl {
+		ns.decl[k] = v
+	}
+	ns.axiomed = map[string]bool{}
+	for k, v := range s.axiomed {
+		ns.axiomed[k] = v
+	}
+	ns.scopes = []scopeRec{{}}
+	ns.nameCtr = s.nameCtr + 100000
+	ns.log = s.log
+	var sb strings.Builder
+	for _, l := range s.hist {
+		if strings.HasPrefix(l, "(push") || strings.HasPrefix(l, "(reset)") {
+			continue
+		}
+		if strings.HasPrefix(l, "(set-option :timeout") {
+			l = fmt.Sprintf("(set-option :timeout %d)", timeoutMs)
+		}
+		sb.WriteString(l)
+		sb.WriteByte('\n')
+	}
+	if ns.log != nil {
+		fmt.Fprintln(ns.log, "; ---- fresh non-incremental solver ----")
+	}
+	io.WriteString(ns.in, sb.String())
+	return ns
 }
 
 func (s *Solver) Pop() {
 	s.send("(pop 1)")
 	top := s.scopes[len(s.scopes)-1]
 	s.scopes = s.scopes[:len(s.scopes)-1]
+	s.hist = s.hist[:top.histLen]
 	for _, t := range top.names {
 		delete(s.names, t)
 	}
@@ -301,7 +365,9 @@ func (s *Solver) readAnswer() string {
 		}
 		if strings.HasPrefix(line, "(error") {
 			s.Errors++
-			fmt.Fprintln(os.Stderr, "SOLVER ERROR:", line)
+			if s.Errors <= 2 {
+				fmt.Fprintln(os.Stderr, "SOLVER ERROR:", line)
+			}
 			// keep reading until an answer arrives
 			continue
 		}
